@@ -69,6 +69,26 @@ def loopM {σ ρ : Type} (body : σ → GoM (Step σ ρ)) : Nat → σ → GoM (
     | .ok (.brk s') => pure (.inl s')
     | .ok (.ret r) => pure (.inr r)
 
+/-- An `io.Reader`: the chunks successive `Read` calls would return if the destination were large enough, then
+`io.EOF` or a read error, possibly delivered together with the last bytes (the same shape as `Model.Source`). -/
+structure Reader where
+  chunks : List Bytes
+  endErr : Bool
+  errWithLast : Bool
+deriving DecidableEq, Repr
+
+/-- `r.Read(p)` with `len(p) = free`: the bytes stored into `p`, the error, the reader afterwards -/
+def readerRead (r : Reader) (free : Int) : GoM (Bytes × Option String × Reader) :=
+  if free < 0 then throw (.panic "slice bounds out of range") else
+  let e : Option String := some (if r.endErr then "verif.errRead" else "io.EOF")
+  match r.chunks with
+  | [] => pure ([], e, r)
+  | c :: rest =>
+    if c.length ≤ free.toNat then
+      if rest.isEmpty && r.errWithLast then pure (c, e, { r with chunks := [] })
+      else pure (c, none, { r with chunks := rest })
+    else pure (c.take free.toNat, none, { r with chunks := c.drop free.toNat :: rest })
+
 /-- `strings.IndexByte` -/
 def stringsIndexByte (s : Bytes) (c : UInt8) : Int :=
   let i := s.findIdx (· == c)
